@@ -249,7 +249,7 @@ func (st *c12State) caseOpening(i int64) {
 				ok = false
 			}
 		}
-		post := cpu.States
+		post := Arch(cpu.States)
 		exp := pre
 		exp.PC = pre.PC + uint16(n)
 		exp.IR.Lo = post.IR.Lo
